@@ -306,7 +306,18 @@ fn execute(prog: Program) -> Outcome {
                 with(|k| k.net.line_log.as_mut().unwrap().clear());
                 // the conflicting write (stale version) -- this is client operation #1
                 wr.exec(&format!("set-safe c 0 conflict{}", uniq));
-                sleep_ms(50);
+                // (50 ms for the notices to arrive -- cut short when the nodes start exchanging megabytes)
+                {
+                    let b0 = with(|k| k.net.inter_node_bytes);
+                    let until = kernel::now() + 50 * kernel::MS;
+                    kernel::wait(
+                        kernel::Wait::Any(vec![
+                            kernel::Wait::Until(until),
+                            kernel::Wait::Cond(std::rc::Rc::new(move |k: &kernel::Kernel| if k.net.inter_node_bytes > b0 + (8 << 20) { kernel::Ready::Yes } else { kernel::Ready::No })),
+                        ]),
+                        true,
+                    );
+                }
                 // the arbiter answers every notice it got by echoing op id and version -- operation #2..
                 let notices: Vec<String> = arb.drain().into_iter().filter(|m| m.starts_with("resolve ")).collect();
                 client_ops = 1 + notices.len() as u64;
@@ -323,6 +334,7 @@ fn execute(prog: Program) -> Outcome {
         // quiescence, or early stop when the exchange is already far above any bound
         let quiet = {
             let t0 = kernel::now();
+            let bytes_before = with(|k| k.net.inter_node_bytes);
             let mut q = false;
             loop {
                 if w.settle(300, 600) {
@@ -330,7 +342,7 @@ fn execute(prog: Program) -> Outcome {
                     break;
                 }
                 let n = with(|k| k.net.line_log.as_ref().map(|l| l.len()).unwrap_or(0));
-                if n > 600 || kernel::now() > t0 + 8_000 * kernel::MS {
+                if n > 600 || kernel::now() > t0 + 8_000 * kernel::MS || with(|k| k.net.inter_node_bytes) > bytes_before + (8 << 20) {
                     break;
                 }
             }
